@@ -221,3 +221,33 @@ V('C06', 'elementwise-guard-singleton-only', M, MM + '__infer_func_call',
   '        arg.param_typemod is not qltypes.TypeModifier.SetOfType\n', '        arg.param_typemod is qltypes.TypeModifier.SingletonType\n', 'C06.R7', 'elementwise-guard-covers')
 V('C06', 'neg-elementwise-guard-membership', M, MM + '__infer_func_call',
   '        arg.param_typemod is not qltypes.TypeModifier.SetOfType\n', '        arg.param_typemod in (qltypes.TypeModifier.SingletonType, qltypes.TypeModifier.OptionalType)\n', None)
+
+# round 4
+V('C06', 'if-else-max-of-branches', 'edb/edgeql/compiler/inference/cardinality.py',
+  None,
+  "    elif str(ir.func_shortname) in ('std::DISTINCT', 'std::IF'):\n        return cartesian_cardinality(cards)\n",
+  "    elif str(ir.func_shortname) == 'std::DISTINCT':\n        return cartesian_cardinality(cards)\n    elif str(ir.func_shortname) == 'std::IF':\n        return cartesian_cardinality((cards[1], max_cardinality((cards[0], cards[2]))))\n",
+  'C06.R8', 'std::IF:lower-bound')
+V('C06', 'const-set-params-by-name', 'edb/edgeql/compiler/inference/multiplicity.py',
+  None,
+  "        if isinstance(el, irast.BaseConstant):\n            els.add(el.value)\n",
+  "        if isinstance(el, irast.BaseConstant):\n            els.add(el.value)\n        elif isinstance(el, irast.Parameter):\n            els.add(el.name)\n",
+  'C06.R8', 'const-set:only-known-values')
+V('C06', 'is-exclusive-reimplemented-without-delegated', 'edb/schema/pointers.py',
+  'edb.schema.pointers.Pointer.is_exclusive',
+  'return bool(self.get_exclusive_constraints(schema))',
+  '''exclusive = schema.get('std::exclusive', type=constraints.Constraint)
+        ptr = self.get_nearest_non_derived_parent(schema)
+        return any(c.issubclass(schema, exclusive) and not c.get_subjectexpr(schema)
+                   for c in ptr.get_constraints(schema).objects(schema))''',
+  'C06.R8', 'is_exclusive:same-exclusions')
+# negative control: a faithful fast path
+V('C06', 'is-exclusive-faithful-fast-path', 'edb/schema/pointers.py',
+  'edb.schema.pointers.Pointer.is_exclusive',
+  'return bool(self.get_exclusive_constraints(schema))',
+  '''exclusive = schema.get('std::exclusive', type=constraints.Constraint)
+        ptr = self.get_nearest_non_derived_parent(schema)
+        return any(c.issubclass(schema, exclusive) and not c.get_subjectexpr(schema)
+                   and not c.get_delegated(schema)
+                   for c in ptr.get_constraints(schema).objects(schema))''',
+  None)
